@@ -1,0 +1,102 @@
+//go:build verif
+
+package bac
+
+// Contracts for gvc (contract-based deductive verification, see /verif/DESIGN.md).
+// Comment-only file, compiled only under the build tag "verif".
+//
+// Basic Access Control, ICAO 9303-11 §4.3 and Appendix D, written as spec functions:
+//   Kseed = SHA-1(MRZ information)[0:16];  Kenc = KDF(Kseed, 1), Kmac = KDF(Kseed, 2) (3DES, parity adjusted)
+//   S = RND.IFD || RND.IC || K.IFD;  E.IFD = E(Kenc, S);  M.IFD = MAC(Kmac, pad(E.IFD));  command data = E.IFD || M.IFD
+//   response = E.IC || M.IC with M.IC = MAC(Kmac, pad(E.IC)), D(Kenc, E.IC) = RND.IC || RND.IFD || K.IC
+//   KSseed = K.IFD xor K.IC; session keys KDF(KSseed, 1/2); SSC = RND.IC[4:8] || RND.IFD[4:8]
+//@ spec func bacKey(seed seq, c int) seq { kdfKey(seed, c, 1, 112) }
+//@ spec func bacMac(kmac seq, m seq) seq { mac3(kmac, pad2S(m, 8)) }
+//@ spec func bacEifd(kenc seq, rndIfd seq, rndIcc seq, kIfd seq) seq { cbcE(1, tdesExpand(kenc), zeros8(), cat(rndIfd, rndIcc, kIfd)) }
+//@ spec func bacPlain(kenc seq, rsp seq) seq { cbcD(1, tdesExpand(kenc), zeros8(), rsp[0:32]) }
+//@ pred bacRspOK(rsp seq, kenc seq, kmac seq, rndIfd seq, rndIcc seq) { len(rsp) == 40
+//@        && rsp[32:40] === bacMac(kmac, rsp[0:32])
+//@        && bacPlain(kenc, rsp)[0:8] === rndIcc && bacPlain(kenc, rsp)[8:16] === rndIfd }
+
+//@ func (bac *BAC) generateKseed
+//@   props C05
+//@   requires password != nil && password.PasswordType == 1
+//@   ensures "kseed-is-first-16-of-sha1": password.PasswordType == 1 ==> result1 == nil && result0 === hashF(3, password.Password)[0:16] && len(result0) == 16
+//@   ensures result1 != nil ==> result0 == nil
+//@   assigns nothing
+//@   safety all
+
+//@ func (bac *BAC) generateKeys
+//@   props C05
+//@   ensures "kenc-kmac-from-seed": kEnc === bacKey(seed, 1) && kMac === bacKey(seed, 2) && len(kEnc) == 16 && len(kMac) == 16
+//@   ensures fresh(kEnc) && fresh(kMac)
+//@   assigns nothing
+//@   safety all
+
+//@ func (bac *BAC) calculateMac
+//@   props C05
+//@   ensures "retail-mac-over-padded-data": (err == nil) == (len(kMac) == 16)
+//@   ensures err == nil ==> mac === bacMac(kMac, data) && len(mac) == 8
+//@   ensures err != nil ==> mac == nil
+//@   ensures fresh(mac)
+//@   assigns nothing
+//@   safety all
+
+//@ func (bac *BAC) buildRequest
+//@   props C05
+//@   ensures "lengths-checked": err == nil ==> len(rndIfd) == 8 && len(rndIcc) == 8 && len(kIfd) == 16
+//@   proves "plaintext-is-rndifd-rndicc-kifd": err == nil ==> s === cat(rndIfd, rndIcc, kIfd)
+//@   proves "eifd": err == nil ==> eIfd === bacEifd(kEnc, rndIfd, rndIcc, kIfd)
+//@   proves "mifd": err == nil ==> mIfd === bacMac(kMac, bacEifd(kEnc, rndIfd, rndIcc, kIfd))
+//@   ensures "command-is-eifd": err == nil ==> len(cmd) == 40 && cmd[0:32] === bacEifd(kEnc, rndIfd, rndIcc, kIfd)
+//@   ensures "command-is-eifd-mifd": err == nil ==> cmd[32:40] === bacMac(kMac, bacEifd(kEnc, rndIfd, rndIcc, kIfd))
+//@   ensures "never-fails-on-proper-inputs": len(rndIfd) == 8 && len(rndIcc) == 8 && len(kIfd) == 16 && len(kEnc) == 16 && len(kMac) == 16 ==> err == nil
+//@   ensures err != nil ==> cmd == nil
+//@   ensures fresh(cmd)
+//@   assigns nothing
+//@   safety all
+
+//@ func (bac *BAC) processResponse
+//@   props C05
+//@   ensures "authenticated-and-echoes-both-challenges": err == nil ==> bacRspOK(data, kEnc, kMac, rndIfd, rndIcc)
+//@   ensures "kicc-from-plaintext": err == nil ==> kIcc === bacPlain(kEnc, data)[16:32] && len(kIcc) == 16
+//@   ensures err != nil ==> kIcc == nil
+//@   ensures fresh(kIcc)
+//@   assigns nothing
+//@   safety all
+
+//@ func (bac *BAC) setupSecureMessaging
+//@   props C05
+//@   requires bac != nil && bac.nfcSession != nil && len(kEnc) == 16 && len(kMac) == 16 && len(rndIc) == 8 && len(rndIfd) == 8
+//@   ensures "cannot-fail-after-installing": err == nil
+//@   ensures "session-installed": typeis(bac.nfcSession.sm, "*iso7816.SecureMessaging") && fresh(as(bac.nfcSession.sm, "*iso7816.SecureMessaging"))
+//@        && validSM(as(bac.nfcSession.sm, "*iso7816.SecureMessaging")) && as(bac.nfcSession.sm, "*iso7816.SecureMessaging").alg == 1
+//@        && as(bac.nfcSession.sm, "*iso7816.SecureMessaging").ksEnc === kEnc && as(bac.nfcSession.sm, "*iso7816.SecureMessaging").ksMac === kMac
+//@        && as(bac.nfcSession.sm, "*iso7816.SecureMessaging").ssc === cat(rndIc[4:8], rndIfd[4:8])
+//@   assigns bac.nfcSession.sm
+//@   safety all
+
+// Top level. The first group of clauses is what a caller can rely on (fail closed, session installed on success);
+// the "proves" clauses are checked at every return and speak about the protocol run itself (the local values):
+// success is reported only after processResponse accepted the chip's answer for exactly the challenges and MRZ keys
+// used in the request, and the installed session carries the keys and counter ICAO 9303-11 §4.3.3 prescribes.
+//@ func (bac *BAC) DoBAC
+//@   props C05 C11
+//@   requires bac != nil && bac.password != nil && validNfc(bac.nfcSession)
+//@   ensures "skipped-for-other-password-types": bac.password.PasswordType != 1 ==> result == nil && err == nil && bac.nfcSession.sm == old(bac.nfcSession.sm)
+//@   ensures "fail-closed-no-session-installed": (result == nil || !result.Success) ==> bac.nfcSession.sm == old(bac.nfcSession.sm)
+//@   ensures "success-iff-no-error": result != nil ==> (result.Success == (err == nil))
+//@   ensures "attempted-for-mrz-passwords": bac.password.PasswordType == 1 ==> result != nil
+//@   proves "chip-response-authenticated-under-mrz-keys": result != nil && result.Success ==>
+//@        bacRspOK(bacRsp, bacKey(kSeed, 1), bacKey(kSeed, 2), rndIfd, rndIcc) && kSeed === hashF(3, bac.password.Password)[0:16]
+//@        && len(rndIcc) == 8 && len(rndIfd) == 8 && len(kIfd) == 16
+//@   proves "request-built-from-the-same-values": result != nil && result.Success ==>
+//@        bacReq[0:32] === bacEifd(bacKey(kSeed, 1), rndIfd, rndIcc, kIfd) && bacReq[32:40] === bacMac(bacKey(kSeed, 2), bacEifd(bacKey(kSeed, 1), rndIfd, rndIcc, kIfd))
+//@   proves "session-keys-and-counter": result != nil && result.Success ==>
+//@        typeis(bac.nfcSession.sm, "*iso7816.SecureMessaging") && validSM(as(bac.nfcSession.sm, "*iso7816.SecureMessaging"))
+//@        && as(bac.nfcSession.sm, "*iso7816.SecureMessaging").alg == 1
+//@        && as(bac.nfcSession.sm, "*iso7816.SecureMessaging").ksEnc === bacKey(xorS(kIfd, bacPlain(bacKey(kSeed, 1), bacRsp)[16:32]), 1)
+//@        && as(bac.nfcSession.sm, "*iso7816.SecureMessaging").ksMac === bacKey(xorS(kIfd, bacPlain(bacKey(kSeed, 1), bacRsp)[16:32]), 2)
+//@        && as(bac.nfcSession.sm, "*iso7816.SecureMessaging").ssc === cat(rndIcc[4:8], rndIfd[4:8])
+//@   assigns bac.nfcSession.sm, bac.nfcSession.lastApduLogEntry, content(bac.nfcSession.apduLog), content(bac.nfcSession.sm), bac.nfcSession.lastSW
+//@   safety all
